@@ -634,6 +634,19 @@ class Quilt(ContainerBase, StoreClientMixin):
         '''
         return self._bus.status
 
+    def __len__(self) -> int:
+        '''Length of rows in values.
+        '''
+        if self._assign_axis:
+            self._update_axis_labels()
+        return self._index.__len__()
+
+    @property
+    def _config(self) -> tp.Any:
+        '''The configuration of the contained :obj:`Bus`: used by the store exporters when no ``config`` is given.
+        '''
+        return self._bus._config
+
     #---------------------------------------------------------------------------
     # dictionary-like interface
 
@@ -659,6 +672,14 @@ class Quilt(ContainerBase, StoreClientMixin):
         if self._assign_axis:
             self._update_axis_labels()
         return self._columns.__contains__(value)
+
+    def __reversed__(self) -> tp.Iterator[tp.Hashable]:
+        '''
+        Returns a reverse iterator on the column labels.
+        '''
+        if self._assign_axis:
+            self._update_axis_labels()
+        return reversed(self._columns)
 
     def items(self) -> tp.Iterator[tp.Tuple[tp.Hashable, Series]]:
         '''Iterator of pairs of column label and corresponding column :obj:`Series`.
